@@ -541,7 +541,24 @@ func (fa *flowAn) callFresh(call *ssa.Call, idx int, seen map[ssa.Value]bool) (b
 	}
 	callees, external := fa.callees(cc)
 	if external {
-		return true, "" // results of standard-library calls do not alias repository collections
+		// the helpers of package slices that work in place hand back (a window of) the array they
+		// were given: Clip only trims the capacity, Grow returns its argument when there is room,
+		// Delete, Insert, Compact and Replace move elements inside the backing array
+		sc := cc.StaticCallee()
+		if sc != nil && sc.Origin() != nil {
+			sc = sc.Origin() // an instance of a generic function has no package of its own
+		}
+		if sc != nil && sc.Pkg != nil && sc.Pkg.Pkg.Path() == "slices" && len(cc.Args) > 0 {
+			name := sc.Name()
+			if i := strings.Index(name, "["); i > 0 {
+				name = name[:i]
+			}
+			switch name {
+			case "Clip", "Grow", "Delete", "DeleteFunc", "Insert", "Compact", "CompactFunc", "Replace":
+				return fa.isFresh(cc.Args[0], seen)
+			}
+		}
+		return true, "" // results of other standard-library calls do not alias repository collections
 	}
 	if callees == nil {
 		// the result of calling a function handed in as a parameter is as fresh as what the
